@@ -1,1 +1,89 @@
-// contract harnesses for trust-runtime/src/harness_coerce (included by the verification hook)
+// Contract harnesses for crates/trust-runtime/src/harness/coerce.rs  (C03)
+//
+// coerce_value_to_type(v, T) manufactures the initial value stored in a variable declared T:
+//   Ok(w)  =>  tag(w) == T  and  num(w) == num(v)  (so w is inside range(T))
+//   Err    <=> num(v) is outside range(T)  (for numeric sources)
+
+use super::*;
+use crate::value::Value;
+use trust_hir::TypeId;
+
+macro_rules! coerce_int {
+    ($name:ident, $src:ident, $sty:ty, $tid:ident, $dst:ident, $dty:ty) => {
+        #[kani::proof]
+        fn $name() {
+            let v: $sty = kani::any();
+            let r = coerce_value_to_type(Value::$src(v), TypeId::$tid);
+            let fits = (v as i128) >= <$dty>::MIN as i128 && (v as i128) <= <$dty>::MAX as i128;
+            let ok = if fits { matches!(&r, Ok(Value::$dst(w)) if *w as i128 == v as i128) } else { r.is_err() };
+            kani::cover!(fits);
+            std::mem::forget(r);
+            assert!(ok, "initial value: declared type's tag, same number, rejected iff outside the declared type's range");
+        }
+    };
+}
+
+// @unit id=coerce.lint.to.sint props=C03 tier=quick kind=proof fn=coerce_value_to_type,coerce_signed
+coerce_int!(coerce_lint_to_sint, LInt, i64, SINT, SInt, i8);
+// @unit id=coerce.lint.to.int props=C03 tier=quick kind=proof fn=coerce_value_to_type,coerce_signed
+coerce_int!(coerce_lint_to_int, LInt, i64, INT, Int, i16);
+// @unit id=coerce.lint.to.dint props=C03 tier=quick kind=proof fn=coerce_value_to_type,coerce_signed
+coerce_int!(coerce_lint_to_dint, LInt, i64, DINT, DInt, i32);
+// @unit id=coerce.lint.to.lint props=C03 tier=thorough kind=proof fn=coerce_value_to_type,coerce_signed
+coerce_int!(coerce_lint_to_lint, LInt, i64, LINT, LInt, i64);
+// @unit id=coerce.ulint.to.lint props=C03 tier=quick kind=proof fn=coerce_value_to_type,coerce_signed
+coerce_int!(coerce_ulint_to_lint, ULInt, u64, LINT, LInt, i64);
+// @unit id=coerce.dint.to.int props=C03 tier=quick kind=proof fn=coerce_value_to_type,coerce_signed
+coerce_int!(coerce_dint_to_int, DInt, i32, INT, Int, i16);
+// @unit id=coerce.udint.to.sint props=C03 tier=thorough kind=proof fn=coerce_value_to_type,coerce_signed
+coerce_int!(coerce_udint_to_sint, UDInt, u32, SINT, SInt, i8);
+// @unit id=coerce.lint.to.usint props=C03 tier=quick kind=proof fn=coerce_value_to_type,coerce_unsigned
+coerce_int!(coerce_lint_to_usint, LInt, i64, USINT, USInt, u8);
+// @unit id=coerce.lint.to.uint props=C03 tier=quick kind=proof fn=coerce_value_to_type,coerce_unsigned
+coerce_int!(coerce_lint_to_uint, LInt, i64, UINT, UInt, u16);
+// @unit id=coerce.lint.to.udint props=C03 tier=thorough kind=proof fn=coerce_value_to_type,coerce_unsigned
+coerce_int!(coerce_lint_to_udint, LInt, i64, UDINT, UDInt, u32);
+// @unit id=coerce.lint.to.ulint props=C03 tier=quick kind=proof fn=coerce_value_to_type,coerce_unsigned
+coerce_int!(coerce_lint_to_ulint, LInt, i64, ULINT, ULInt, u64);
+// @unit id=coerce.ulint.to.uint props=C03 tier=thorough kind=proof fn=coerce_value_to_type,coerce_unsigned
+coerce_int!(coerce_ulint_to_uint, ULInt, u64, UINT, UInt, u16);
+// @unit id=coerce.dint.to.usint props=C03 tier=quick kind=proof fn=coerce_value_to_type,coerce_unsigned
+coerce_int!(coerce_dint_to_usint, DInt, i32, USINT, USInt, u8);
+// @unit id=coerce.dint.to.byte props=C03 tier=quick kind=proof fn=coerce_value_to_type,coerce_bitstring
+coerce_int!(coerce_dint_to_byte, DInt, i32, BYTE, Byte, u8);
+// @unit id=coerce.lint.to.word props=C03 tier=quick kind=proof fn=coerce_value_to_type,coerce_bitstring
+coerce_int!(coerce_lint_to_word, LInt, i64, WORD, Word, u16);
+// @unit id=coerce.ulint.to.dword props=C03 tier=thorough kind=proof fn=coerce_value_to_type,coerce_bitstring
+coerce_int!(coerce_ulint_to_dword, ULInt, u64, DWORD, DWord, u32);
+// @unit id=coerce.lword.to.lword props=C03 tier=thorough kind=proof fn=coerce_value_to_type,coerce_bitstring
+coerce_int!(coerce_lword_to_lword, LWord, u64, LWORD, LWord, u64);
+// @unit id=coerce.word.to.byte props=C03 tier=quick kind=proof fn=coerce_value_to_type,coerce_bitstring
+coerce_int!(coerce_word_to_byte, Word, u16, BYTE, Byte, u8);
+
+// tag-only targets: the declared tag or a rejection, never another tag
+// @unit id=coerce.tags props=C03 tier=quick kind=proof fn=coerce_value_to_type,coerce_time,coerce_date,coerce_tod,coerce_dt
+#[kani::proof]
+fn coerce_tags() {
+    use crate::value::{DateTimeValue, DateValue, Duration, TimeOfDayValue};
+    let n: i64 = kani::any();
+    let b: bool = kani::any();
+    let r0 = coerce_value_to_type(Value::Bool(b), TypeId::BOOL);
+    let r1 = coerce_value_to_type(Value::LTime(Duration::from_nanos(n)), TypeId::TIME);
+    let r2 = coerce_value_to_type(Value::Time(Duration::from_nanos(n)), TypeId::LTIME);
+    let r3 = coerce_value_to_type(Value::Date(DateValue::new(n)), TypeId::DATE);
+    let r4 = coerce_value_to_type(Value::Tod(TimeOfDayValue::new(n)), TypeId::TOD);
+    let r5 = coerce_value_to_type(Value::Dt(DateTimeValue::new(n)), TypeId::DT);
+    let r6 = coerce_value_to_type(Value::Date(DateValue::new(n)), TypeId::TOD);
+    let r7 = coerce_value_to_type(Value::DInt(n as i32), TypeId::BOOL);
+    let ok = matches!(&r0, Ok(Value::Bool(x)) if *x == b)
+        && matches!(&r1, Ok(Value::Time(d)) if d.as_nanos() == n)
+        && matches!(&r2, Ok(Value::LTime(d)) if d.as_nanos() == n)
+        && matches!(&r3, Ok(Value::Date(d)) if d.ticks() == n)
+        && matches!(&r4, Ok(Value::Tod(d)) if d.ticks() == n)
+        && matches!(&r5, Ok(Value::Dt(d)) if d.ticks() == n)
+        && r6.is_err()
+        && r7.is_err();
+    kani::cover!(n < 0);
+    std::mem::forget((r0, r1, r2, r3, r4, r5, r6, r7));
+    assert!(ok, "BOOL/TIME/DATE/TOD/DT initial values carry the declared tag; a value of another family is rejected");
+}
